@@ -20,7 +20,8 @@ for pid in ALL:
         "thorough_cmd": f"./check {pid} thorough",
         "evidence_file": f"/verif/evidence/{pid}.json",
         "replay_cmd_template": "./check replay {path}",
-        "engine": "pyvc",
+        # the deciding engine: the deductive verifier where a contract / flow pass exists, the bounded harness alone otherwise
+        "engine": "pyvc" if (cfg.get("contracts") or cfg.get("flow")) else "harness",
         "level_claimed": {"category": cfg["level"], "text": cfg["explanation"], "design_ref": f"DESIGN.md §9 {pid}, §15"},
         "level_note": cfg.get("level_note") or ("Trusted: the pyvc VC generator and its encoding of Python (DESIGN §3.3), z3/cvc5; "
                                                  + "; ".join(cfg.get("trusted_base", []))),
@@ -32,6 +33,11 @@ claimed = {c["property_id"] for c in checks}
 na_reasons = getattr(props, "NOT_APPLICABLE", {})
 m["not_applicable"] = [{"property_id": p, "reason": na_reasons.get(p, "check not built yet (work in progress)")} for p in ALL if p not in claimed]
 for e in m.get("engines", []):
-    e["serves_properties"] = sorted(claimed)
+    if e.get("name") == "pyvc":
+        e["serves_properties"] = sorted(p for p in claimed if props.PROPS[p].get("contracts") or props.PROPS[p].get("flow"))
+    else:
+        e["serves_properties"] = sorted(claimed)
+m["notes"] = ("one check per property (./check <id> quick|thorough); contracts under /verif/contracts, SMT-free contract passes under "
+              "/verif/checks/flow_*.py, bounded stand-ins under /verif/harness; see DESIGN.md section 15 for the as-built record")
 json.dump(m, open(os.path.join(ROOT, "MANIFEST.json"), "w"), indent=1)
 print("claimed", sorted(claimed))
